@@ -42,6 +42,41 @@ def run(ctx: Ctx):
         ctx.broken.append({"kind": "correspondence", "name": "ManagedFilter.h does not compile/run with the recording Impl", "detail": str(cpp_obs)})
         cpp_obs = None
 
+    # ---------------- C++: first ticks of fresh filters with several readings.  Whatever order the readings are taken in, the
+    # moves are chained (each starts where the previous one ended), so the steps of the tick telescope: they sum to
+    # output time - start time, and each is bounded.  (No assumption on what is held between ticks: first ticks only.)
+    from fractions import Fraction
+    multi = []
+    for i in range(40 if ctx.tier == "quick" else 600):
+        m = ctx.rng.choice(rt.MAXDTS)
+        start = ctx.rng.choice([0.0, round(ctx.rng.uniform(-50, 50), 3)])
+        span = m * ctx.rng.choice([3, 10, 40])
+        out = start + ctx.rng.uniform(0.2 * span, span)
+        rs = [[float(start + ctx.rng.uniform(-0.3 * span, 1.2 * span)).hex(), ctx.rng.randint(0, 2)] for _ in range(ctx.rng.randint(2, 4))]
+        c = bool(i & 1)
+        multi.append(({"max_dt": float(m).hex(), "control_size": int(c), "start": float(start).hex(),
+                       "ticks": [{"out": float(out).hex(), "control": c, "readings": rs}]}, c, bool((i >> 1) & 1)))
+    ok2, multi_obs = rt.run_cpp(ctx, multi)
+    if not ok2:
+        ctx.broken.append({"kind": "correspondence", "name": "ManagedFilter.h does not compile/run with the recording Impl (multi-reading ticks)", "detail": str(multi_obs)})
+    else:
+        for (h, _c, _l), o in zip(multi, multi_obs):
+            if not o or o[0] is None:
+                continue
+            ev = rt.expand(o[0]["ret"])
+            dts = [v for k, v in ev if k == 0]
+            md, st, ou = float.fromhex(h["max_dt"]), float.fromhex(h["start"]), float.fromhex(h["ticks"][0]["out"])
+            ctx.count(["c++ chained", h], len(dts) >= 3, sample={"runtime": "c++", "max_dt": md, "start": st, "out": ou, "readings": h["ticks"][0]["readings"], "n_steps": len(dts)})
+            total = sum((Fraction(d) for d in dts), Fraction(0))
+            why = None
+            if any(abs(Fraction(d)) > Fraction(md) + Fraction(1, 10**9) for d in dts):
+                why = f"a step exceeds max_dt={md!r}: {max(dts, key=abs)!r}"
+            elif abs(total - (Fraction(ou) - Fraction(st))) > Fraction(1, 10**8) * max(1, len(dts)):
+                why = (f"the steps of one tick with {len(h['ticks'][0]['readings'])} readings sum to {float(total)!r}, the filter travelled from its start time {st!r} "
+                       f"to the output time {ou!r} ({ou - st!r}): the moves of the tick are not chained")
+            if why:
+                ctx.violation(f"c++ runtime: {why}", {"runtime": "c++", "history": h, "observed": o,
+                                                      "how": "tools/cpp/rt_driver.cpp.in replays the history with a recording filter"}, key="c++:tick-not-chained")
     # ---------------- property predicate on the implementations' own traces (search / oracle)
     def oracle(name, hlist, obs):
         for h, o in zip(hlist, obs):
